@@ -660,4 +660,33 @@ theorem trackRequest_cookie (env : Env) (t : CookieRequestTracker) (w : Response
             · rw [← h.2, ← h.1.1]; simp
             · intro a ha; rw [← h.2] at ha; simp at ha; rw [ha, ← h.1.1]
 
+/-! ### routing (middleware.go `Middleware.ServeHTTP`) -/
+
+/-- C17: a request is handled as an assertion delivery exactly when its path is the ACS path (and is not the metadata path, which is
+    looked at first); every other path gets the metadata document or a 404 — no other route creates sessions -/
+theorem middlewareRoute_cases (env : Env) (m : Middleware) (w : ResponseWriter) (rq : HTTPRequest) (tr : List Event)
+    (h : middlewareRoute env m w (some rq) = .ok tr) :
+    (env.requestPath rq = env.urlPath_ServiceProvider_MetadataURL m.ServiceProvider ∧ tr = [⟨"m.ServeMetadata", []⟩]) ∨
+    (env.requestPath rq ≠ env.urlPath_ServiceProvider_MetadataURL m.ServiceProvider ∧
+       env.requestPath rq = env.urlPath_ServiceProvider_AcsURL m.ServiceProvider ∧ ServeACS env m w (some rq) = .ok tr) ∨
+    (env.requestPath rq ≠ env.urlPath_ServiceProvider_MetadataURL m.ServiceProvider ∧
+       env.requestPath rq ≠ env.urlPath_ServiceProvider_AcsURL m.ServiceProvider ∧ tr = [⟨"http.NotFound", []⟩]) := by
+  unfold middlewareRoute at h
+  simp only [deref_some, Outcome.ok_bind', Outcome.pure_eq_ok] at h
+  by_cases h1 : env.requestPath rq = env.urlPath_ServiceProvider_MetadataURL m.ServiceProvider
+  · simp [h1] at h; exact Or.inl ⟨h1, h.symm⟩
+  · have h1' : (env.requestPath rq == env.urlPath_ServiceProvider_MetadataURL m.ServiceProvider) = false := by simpa using h1
+    simp only [h1', Bool.false_eq_true, if_false] at h
+    by_cases h2 : env.requestPath rq = env.urlPath_ServiceProvider_AcsURL m.ServiceProvider
+    · have h2' : (env.requestPath rq == env.urlPath_ServiceProvider_AcsURL m.ServiceProvider) = true := by simpa using h2
+      simp only [h2', if_true] at h
+      refine Or.inr (Or.inl ⟨h1, h2, ?_⟩)
+      cases hs : ServeACS env m w (some rq) with
+      | err x => simp [hs] at h
+      | panic x => simp [hs] at h
+      | ok t => simp [hs] at h; rw [h]
+    · have h2' : (env.requestPath rq == env.urlPath_ServiceProvider_AcsURL m.ServiceProvider) = false := by simpa using h2
+      simp [h2'] at h
+      exact Or.inr (Or.inr ⟨h1, h2, h.symm⟩)
+
 end SamlVerif.TransMiddleware
